@@ -469,3 +469,70 @@ Lemma unary_segmentation_independent : forall max pool h t1 t2,
   unary_unmarshal_c max pool h t1 = unary_unmarshal_c max pool h t2.
 Proof. intros. unfold unary_unmarshal_c, read_all. rewrite H. reflexivity. Qed.
 End Unary.
+
+(* ---- unary Connect requests over the life of a header map ----
+   connectUnaryMarshaler.Marshal compresses a message iff a pool is configured
+   and the message reaches compress-min-bytes, and only then writes the
+   Content-Encoding header; below the threshold it leaves the header alone. The
+   header map may be a re-sent Request's: connectClient.NewConn clears the header
+   first [connect_unary_encoding_cleared_in_new_conn, extracted by the
+   translator; were it false, [unary_call] would keep the earlier label]. The
+   receiver decompresses iff the header names the algorithm. *)
+Section UnaryRoundTrip.
+Variable M : Type.
+Variable marshal : M -> bytes.
+Variable unmarshal_into : bytes -> M -> option M.
+Variable compress : bytes -> bytes.
+Variable decompress : bytes -> option bytes.
+Variable zero : M.
+Hypothesis codec_roundtrip : forall m h, unmarshal_into (marshal m) h = Some m.
+Hypothesis compress_roundtrip : forall x, decompress (compress x) = Some x.
+Hypothesis compress_nonempty : forall x, compress x = [] -> x = [].
+
+(* body written, and whether Marshal set the header *)
+Definition unary_marshal (pool : bool) (min_bytes : N) (m : M) : bytes * bool :=
+  let d := marshal m in
+  if pool && negb (len d <? min_bytes) then (compress d, true) else (d, false).
+
+(* one call with a header map whose Content-Encoding slot is [labelled_before] *)
+Definition unary_call (pool : bool) (min_bytes : N) (labelled_before : bool) (m : M) : bytes * bool :=
+  let cleared := if connect_unary_encoding_cleared_in_new_conn then false else labelled_before in
+  let '(body, sets) := unary_marshal pool min_bytes m in
+  (body, sets || cleared).
+
+(* the same header map through a list of calls: what each attempt puts on the wire *)
+Fixpoint unary_calls (pool : bool) (min_bytes : N) (labelled : bool) (ms : list M) : list (bytes * bool) :=
+  match ms with
+  | [] => []
+  | m :: r => let '(body, lab) := unary_call pool min_bytes labelled m in
+              (body, lab) :: unary_calls pool min_bytes lab r
+  end.
+
+Lemma unary_call_roundtrip_lemma : forall pool min_bytes before m body lab h,
+  unary_call pool min_bytes before m = (body, lab) ->
+  unary_unmarshal_f M unmarshal_into decompress 0 lab h (body, CleanEOF) = inl m.
+Proof.
+  intros pool min_bytes before m body lab h H.
+  unfold unary_call, unary_marshal in H.
+  cbv [connect_unary_encoding_cleared_in_new_conn] in H.
+  unfold unary_unmarshal_f. cbn [andb N.ltb]. 
+  replace (0 <? 0) with false by reflexivity. cbn [andb].
+  destruct (pool && negb (len (marshal m) <? min_bytes)) eqn:E; inversion H; subst; clear H.
+  - cbn [orb]. destruct (compress (marshal m)) as [|b r] eqn:C.
+    + cbn [is_nil negb andb]. apply compress_nonempty in C. rewrite <- C. rewrite codec_roundtrip. reflexivity.
+    + cbn [is_nil negb andb]. unfold decompress_limited. rewrite <- C. rewrite compress_roundtrip.
+      replace (0 <? 0) with false by reflexivity. cbn [andb]. rewrite codec_roundtrip. reflexivity.
+  - cbn [orb]. rewrite Bool.andb_false_r. rewrite codec_roundtrip. reflexivity.
+Qed.
+
+(* every attempt's message arrives intact, whatever the earlier attempts were *)
+Lemma unary_reuse_roundtrip_lemma : forall pool min_bytes ms before h,
+  Forall2 (fun m w => unary_unmarshal_f M unmarshal_into decompress 0 (snd w) h (fst w, CleanEOF) = inl m)
+          ms (unary_calls pool min_bytes before ms).
+Proof.
+  intros pool min_bytes. induction ms as [|m r IH]; intros before h; cbn [unary_calls]; [constructor|].
+  destruct (unary_call pool min_bytes before m) as [body lab] eqn:E.
+  constructor; [cbn [fst snd]; exact (unary_call_roundtrip_lemma _ _ _ _ _ _ h E) | apply IH].
+Qed.
+
+End UnaryRoundTrip.
